@@ -59,7 +59,16 @@ RegionsMag == {[k |-> "rpregion", secs |-> ss, w |-> w, o |-> o, ends |-> e, tol
                  ss \in {<<Seg(<<8, 0>>, FALSE)>>, <<Seg(<<5, 0>>, FALSE), [k |-> "cubic_smooth", c2 |-> <<4, 3>>, e |-> <<6, 5>>, rel |-> TRUE]>>},
                  w \in {1000}, o \in {0, 750}, e \in {"flush", "round", "halfwidth"}, ro \in {0, 1}}
               \cup {[k |-> "rpregion", secs |-> <<Seg(<<8, 0>>, FALSE)>>, w |-> 1000, o |-> o, ends |-> "halfwidth", tolk |-> 2, rot |-> 0, mag |-> 1] : o \in {0, -750}}
-Init == case \in Books \cup After \cup Cmds \cup Regions \cup RegionsMag
+\* centre lines of simple paths: a tangent-continuous chain of 2-4 sections, each with its own linear
+\* offset interpolation, continuous from section to section (a kink or a jump has no exact centre curve)
+CSecs == << Seg(<<6, 0>>, TRUE), [k |-> "cubic_smooth", c2 |-> <<4, 3>>, e |-> <<6, 5>>, rel |-> TRUE],
+            [k |-> "cubic_smooth", c2 |-> <<3, -1>>, e |-> <<6, 0>>, rel |-> TRUE], Seg(<<3, 1>>, TRUE) >>
+COffs == { << <<0, 0>>, <<0, 750>>, <<750, 750>>, <<750, -300>> >>,
+           << <<500, 500>>, <<500, 500>>, <<500, -250>>, <<-250, -250>> >>,
+           << <<0, 600>>, <<600, 0>>, <<0, 0>>, <<0, -400>> >> }
+Centers == {[k |-> "rpcenter", secs |-> SubSeq(CSecs, 1, n), offs |-> SubSeq(os, 1, n), w |-> 1000, tolk |-> t]
+              : n \in 2..4, os \in COffs, t \in {2, 3}}
+Init == case \in Books \cup After \cup Cmds \cup Regions \cup RegionsMag \cup Centers
 Next == UNCHANGED case
 AppendOpts == [format |-> "TXT", charset |-> "UTF-8",
                openOptions |-> <<"WRITE", "CREATE", "APPEND">>]
